@@ -128,3 +128,12 @@ Theorem c02_resume_refused_connack_v5 : forall l tam, Inv5 (Client.Loop5.st5 l) 
     Client.Loop5.connected5 l2 = false /\
     forall r, holds5 (Client.Loop5.st5 l) r -> List.In r (Client.Loop5.pending5 l2).
 Proof. exact Client.Loop5Proofs.resume_refused_holds_all5. Qed.
+
+Theorem c02_clean_above_negotiated_limit_v5 :
+  option_map (fun l => (s5_max (Client.Loop5.st5 l), held5 (Client.Loop5.st5 l)))
+    (Client.Loop5.lrun5 (Client.Loop5.linit5 3 false) Client.Loop5Proofs.above_limit5_history)
+  = Some (2, [R5Publish (mkPub5 Q1 3 3 3 None)]) /\
+  option_map (fun l => (Client.Loop5.pending5 l, held5 (Client.Loop5.st5 l), Client.Loop5.connected5 l))
+    (Client.Loop5.lrun5 (Client.Loop5.linit5 3 false) (Client.Loop5Proofs.above_limit5_history ++ [Client.Loop5.Fail5]))
+  = Some ([R5Publish (mkPub5 Q1 3 3 3 None)], [], false).
+Proof. exact Client.Loop5Proofs.clean_above_negotiated_limit5. Qed.
